@@ -252,8 +252,95 @@ pub fn scenarios(tier: Tier) -> Vec<Scenario> {
     v
 }
 
+/// E1 part: every schedule prefix of a small cluster of real node cores (bounded depth, with a
+/// noisy Byzantine validator), each completed fairly; the window must end decided at every node.
+fn run_liveness_prefixes(report: &Report, tier: Tier) -> Value {
+    use crate::cluster::{ClusterAlphabet, ClusterSys, LiveSys};
+    use crate::common::make_epoch;
+    use crate::engine::{BfsLimits, bfs};
+    use crate::pooldrv::{Blk, CK, VK, VoteSpec};
+    use std::sync::Arc;
+    let g = Blk { slot: 0, idx: 0 };
+    let b = |s, i| Blk { slot: s, idx: i };
+    let byz_votes = |byz: usize, kinds: &[(VK, u8)]| -> Vec<VoteSpec> { kinds.iter().map(|(k, blk)| VoteSpec { kind: *k, slot: 1, blk: *blk, signer: byz }).collect() };
+    let full = [(VK::Notar, 0u8), (VK::Notar, 1), (VK::Skip, 0), (VK::NotarFb, 0), (VK::SkipFb, 0)];
+    let k4 = Arc::new(make_epoch(&[19, 27, 27, 27]));
+    let k5 = Arc::new(make_epoch(&[21, 21, 21, 19, 18]));
+    let systems = vec![
+        ClusterSys::new(
+            "K4-byzantine-leader-equivocates-small-noise",
+            k4.clone(),
+            vec![1, 2, 3],
+            0,
+            ClusterAlphabet { byz_votes: byz_votes(0, &[(VK::Skip, 0), (VK::Notar, 0)]), forge: vec![], blocks: vec![(b(1, 0), g), (b(1, 1), g)], invalid: vec![], windows: vec![0] },
+        ),
+        ClusterSys::new(
+            "K4-byzantine-leader-equivocates",
+            k4.clone(),
+            vec![1, 2, 3],
+            0,
+            ClusterAlphabet { byz_votes: byz_votes(0, &full), forge: vec![], blocks: vec![(b(1, 0), g), (b(1, 1), g)], invalid: vec![], windows: vec![0] },
+        ),
+        ClusterSys::new(
+            "K5-correct-leader-one-crashed-one-byzantine",
+            k5.clone(),
+            vec![0, 1, 2],
+            3,
+            ClusterAlphabet { byz_votes: byz_votes(3, &full[..3]), forge: vec![(CK::Skip, 1, 0), (CK::NotarFb, 1, 0)], blocks: vec![(b(1, 0), g)], invalid: vec![1], windows: vec![0] },
+        ),
+    ];
+    if let Ok(spec) = std::env::var("C02_DEBUG") {
+        // debugging aid: C02_DEBUG="<system index>:<a,b,c>" replays a prefix and prints the completion
+        let (si, acts) = spec.split_once(':').unwrap();
+        let sys = &systems[si.parse::<usize>().unwrap()];
+        use crate::engine::Sys;
+        let mut w = sys.init();
+        for a in acts.split(',').filter(|x| !x.is_empty()) {
+            let a: u16 = a.parse().unwrap();
+            println!("step {}", sys.describe(a));
+            let _ = sys.step(&mut w, a, false);
+        }
+        let rounds = sys.fair_completion(&mut w, std::env::var("C02_TIMEOUTS_FIRST").is_ok());
+        println!("rounds {rounds}");
+        for (n, e) in w.emitted.iter().enumerate() {
+            println!("node v{} emitted:", sys.nodes[n]);
+            for m in e {
+                println!("   {m:?}");
+            }
+            println!("  timers {:?} q {:?}", w.cores[n].timers, w.cores[n].q);
+        }
+        std::process::exit(0);
+    }
+    let depths = [tier.pick(4, 8), tier.pick(3, 7), tier.pick(4, 7)];
+    let mut per = Vec::new();
+    for (inner, depth) in systems.into_iter().zip(depths) {
+        let name = inner.name.clone();
+        let stakes = inner.epoch.stakes.clone();
+        let nodes = inner.nodes.clone();
+        let sys = LiveSys::new(inner);
+        let limits = BfsLimits::new(depth, tier.pick(1_000_000, 20_000_000), tier.pick(40, 300));
+        let st = bfs(&sys, &name, &limits, report);
+        let completions = sys.completions.load(std::sync::atomic::Ordering::Relaxed);
+        let shapes: Vec<String> = sys.shapes.lock().unwrap().iter().cloned().collect();
+        println!(
+            "  {name}: prefix states={} transitions={} depth_completed={} fair completions={} max rounds={} decided shapes={:?} capped={:?}",
+            st.states, st.transitions, st.depth_completed, completions, sys.max_rounds.load(std::sync::atomic::Ordering::Relaxed), shapes, st.capped
+        );
+        let mut j = st.to_json();
+        j["system"] = json!(name);
+        j["depth_bound"] = json!(depth);
+        j["stakes"] = json!(stakes);
+        j["real_nodes"] = json!(nodes);
+        j["fair_completions"] = json!(completions);
+        j["decided_shapes_slots_1_to_3"] = json!(shapes);
+        per.push(j);
+    }
+    json!(per)
+}
+
 pub fn run(tier: Tier) -> i32 {
     let report = Report::new("C02", tier, "fault_enumeration");
+    let live = run_liveness_prefixes(&report, tier);
     let scs = scenarios(tier);
     let total_ms = tier.pick(12_000u64, 16_000);
     let samples = std::sync::Mutex::new(Samples::new(5));
@@ -277,6 +364,8 @@ pub fn run(tier: Tier) -> i32 {
         "exhaustive": true,
         "virtual_ms_per_run": total_ms,
         "inconclusive": *inconclusive.lock().unwrap(),
+        "liveness_from_explored_prefixes": live,
+        "liveness_rule": "every state reached by the breadth-first exploration of schedule prefixes of 3 real node cores (real Votor + Pool each; Byzantine votes to single nodes, adversary-aggregated certificates, per-link FIFO deliveries incl. loop-back in every interleaving, blocks to single nodes, timeouts) is rebuilt and completed fairly (everything in flight delivered, held blocks repaired to the others, timeouts fired when nothing is in flight, Byzantine validator silent); on the completed world every slot of the window must be certified (skip or notarization/-fallback) or finalized at every node and the next window must have a ready parent",
         "samples": samples.into_inner().unwrap().items,
     });
     report.finish(cov)
